@@ -35,52 +35,79 @@ def build(ctx):
 def part_vertical(ctx, eng):
     rp = make_replay(ctx)
     pvs = eng.find('push_vertical_spaces', self_ty='FmtVisitor', file='src/missed_spans.rs')
-    eng.lenient = True
-    eng.inline_only = [re.compile(r'src/config/config_type\.rs'), re.compile(r'Config::')]
-    offset = z3.BitVec('trailing_newlines_in_buffer', 64)
+    fn = eng.get_fn(pvs)
+    mirtext = '\n'.join(str(b) for b in fn.blocks.values())
+    shape_a = re.search(r'TakeWhile<Rev<Chars<.*>>, .*> as Iterator>::count', mirtext) is not None
+    K = 3 if ctx.tier == 'quick' else 5
+    # harness A: the count of trailing newlines is one symbolic number of any size (applies while the code computes it with
+    #            chars().rev().take_while().count()); harness B: the buffer is a symbolic ASCII string of every length 0..K and the
+    #            code's own way of counting runs on it
+    harnesses = ([('A', None)] if shape_a else []) + [('B', k) for k in range(0, K + 1)]
+    if not shape_a:
+        ctx.notes.append('push_vertical_spaces no longer counts with chars().rev().take_while().count(): only the bounded-buffer harness applies')
+    for hname, k in harnesses:
+        eng.stubs = []
+        eng.lenient = True
+        eng.inline_only = [re.compile(r'src/config/config_type\.rs'), re.compile(r'Config::')]
+        st = State()
+        if hname == 'A':
+            offset = z3.BitVec('trailing_newlines_in_buffer', 64)
+            eng.stub(r'^<TakeWhile<Rev<Chars<.*>>, .*> as Iterator>::count$', lambda e, s_, a, c, o=offset: BV(o, 'usize'),
+                     'buffer.chars().rev().take_while(newline).count() = number of trailing newlines (symbolic)')
+            buf = Opaque('String', 'buffer')
+            extra = [z3.ULT(offset, LIM)]
+            bvars = []
+        else:
+            chars = [z3.BitVec('buf%d' % i, 32) for i in range(k)]
+            buf = Seq([BV(c, 'char') for c in chars])
+            extra = [z3.And(z3.ULT(c, 0x80)) for c in chars]
+            t = z3.BitVecVal(0, 64)
+            for i in range(k):           # trailing newline count of the symbolic buffer
+                t = z3.If(chars[i] == 10, t + 1, z3.BitVecVal(0, 64))
+            offset = t
+            bvars = chars
 
-    def count_stub(eng_, st_, args, ci):
-        return BV(offset, 'usize')
-    eng.stub(r'^<TakeWhile<Rev<Chars<.*>>, .*> as Iterator>::count$', count_stub, 'buffer.chars().rev().take_while(newline).count() = number of trailing newlines (symbolic)')
+        def repeat_stub(eng_, st_, args, ci):
+            return Tup([deref(eng_, st_, args[0]), args[1]], 'Repeat')
+        eng.stub(r'<impl str>::repeat$', repeat_stub, 'str::repeat(s, n) = structure')
 
-    def repeat_stub(eng_, st_, args, ci):
-        return Tup([deref(eng_, st_, args[0]), args[1]], 'Repeat')
-    eng.stub(r'<impl str>::repeat$', repeat_stub, 'str::repeat(s, n) = structure')
-
-    def push_str_stub(eng_, st_, args, ci):
-        st_.trace.append(('push_str', deref(eng_, st_, args[1])))
-        return UNIT
-    eng.stub(r'FmtVisitor::<.*>::push_str$', push_str_stub, 'FmtVisitor::push_str observed')
-    st = State()
-    cfgref, cv = make_config(eng, st)
-    upper, lower = cv['blank_lines_upper_bound'].e, cv['blank_lines_lower_bound'].e
-    nc = z3.BitVec('newline_count', 64)
-    for a in (z3.ULT(upper, LIM), z3.ULT(lower, LIM), z3.ULE(lower, upper), z3.ULT(nc, LIM), z3.ULT(offset, LIM)):
-        st.assume(a)
-    vis = Opaque('FmtVisitor', 'visitor')
-    cfg_idx = eng.src.field_index('FmtVisitor', 'config', 'src/visitor.rs')
-    st.notes[('lazy', vis.ident, cfg_idx)] = cfgref
-    selfref = eng.ref_to(st, vis, True)
-    outs = ctx.check_outcomes(eng.run(pvs, [selfref, BV(nc, 'usize')], st), 'push_vertical_spaces')
-    mv = [nc, offset, upper, lower]
-    hint = [z3.ULT(x, 12) for x in mv]
-    for pi, o in enumerate(outs):
-        if o.kind == 'panic':
-            ctx.prop('push_vertical_spaces/p%d/no-panic[%s]' % (pi, str(o.info.get('msg'))[:30]), o.state.pc, z3.BoolVal(True), mv, rp, twin=False, hint=hint)
-            continue
-        pushes = [t[1] for t in o.state.trace if t[0] == 'push_str']
-        if len(pushes) != 1 or not (isinstance(pushes[0], Tup) and pushes[0].name == 'Repeat' and isinstance(pushes[0].items[0], StrVal) and pushes[0].items[0].s == '\n'):
-            ctx.prop('push_vertical_spaces/p%d/pushes-only-newlines-once' % pi, o.state.pc, z3.BoolVal(True), mv, rp, twin=False, hint=hint)
-            continue
-        n = pushes[0].items[1].e
-        total = offset + n
-        want = z3.If(z3.UGT(nc + offset, upper + 1), upper + 1, z3.If(z3.ULT(nc + offset, lower + 1), lower + 1, nc + offset))
-        ctx.prop('push_vertical_spaces/p%d/buffer-then-ends-in-clamp(count+trailing,lower+1,upper+1)-newlines' % pi, o.state.pc,
-                 z3.And(z3.ULE(offset, upper + 1), total != want), mv, rp, hint=hint)
-        ctx.prop('push_vertical_spaces/p%d/never-more-than-upper-blank-lines' % pi, o.state.pc, z3.And(z3.ULE(offset, upper + 1), z3.UGT(total, upper + 1)), mv, rp, hint=hint)
-        ctx.prop('push_vertical_spaces/p%d/adds-nothing-when-already-over-the-bound' % pi, o.state.pc, z3.And(z3.UGT(offset, upper + 1), n != 0), mv, rp, hint=hint)
-        ctx.prop('push_vertical_spaces/p%d/idempotent(re-applied-with-count-0-adds-nothing)' % pi, o.state.pc,
-                 z3.And(nc == 0, z3.UGE(offset, lower + 1), n != 0), mv, rp, hint=hint)
+        def push_str_stub(eng_, st_, args, ci):
+            st_.trace.append(('push_str', deref(eng_, st_, args[1])))
+            return UNIT
+        eng.stub(r'FmtVisitor::<.*>::push_str$', push_str_stub, 'FmtVisitor::push_str observed')
+        cfgref, cv = make_config(eng, st)
+        upper, lower = cv['blank_lines_upper_bound'].e, cv['blank_lines_lower_bound'].e
+        nc = z3.BitVec('newline_count', 64)
+        for a in [z3.ULT(upper, LIM), z3.ULT(lower, LIM), z3.ULE(lower, upper), z3.ULT(nc, LIM)] + extra:
+            st.assume(a)
+        vis = Opaque('FmtVisitor', 'visitor')
+        fields = [n for n, _ in eng.src.struct_fields('FmtVisitor', 'src/visitor.rs')]
+        st.notes[('lazy', vis.ident, fields.index('config'))] = cfgref
+        st.notes[('lazy', vis.ident, fields.index('buffer'))] = buf
+        selfref = eng.ref_to(st, vis, True)
+        tag = 'push_vertical_spaces/%s%s' % (hname, '' if k is None else '/len=%d' % k)
+        outs = ctx.check_outcomes(eng.run(pvs, [selfref, BV(nc, 'usize')], st), tag)
+        mv = [nc, upper, lower] + ([offset] if hname == 'A' else bvars)
+        hint = [z3.ULT(x, 12) for x in mv[:3]]
+        log('[C08] %s: %d paths' % (tag, len(outs)))
+        for pi, o in enumerate(outs):
+            if o.kind == 'panic':
+                ctx.prop('%s/p%d/no-panic[%s]' % (tag, pi, str(o.info.get('msg'))[:30]), o.state.pc, z3.BoolVal(True), mv, rp, twin=False, hint=hint)
+                continue
+            pushes = [t_[1] for t_ in o.state.trace if t_[0] == 'push_str']
+            if len(pushes) != 1 or not (isinstance(pushes[0], Tup) and pushes[0].name == 'Repeat' and isinstance(pushes[0].items[0], StrVal) and pushes[0].items[0].s == '\n'):
+                ctx.prop('%s/p%d/pushes-only-newlines-once' % (tag, pi), o.state.pc, z3.BoolVal(True), mv, rp, twin=False, hint=hint)
+                continue
+            n = pushes[0].items[1].e
+            total = offset + n
+            want = z3.If(z3.UGT(nc + offset, upper + 1), upper + 1, z3.If(z3.ULT(nc + offset, lower + 1), lower + 1, nc + offset))
+            tw = hname == 'A'      # per-path reachability twins only for the unbounded harness (B's paths are many and small)
+            ctx.prop('%s/p%d/buffer-then-ends-in-clamp(count+trailing,lower+1,upper+1)-newlines' % (tag, pi), o.state.pc,
+                     z3.And(z3.ULE(offset, upper + 1), total != want), mv, rp, hint=hint, twin=tw)
+            ctx.prop('%s/p%d/never-more-than-upper-blank-lines' % (tag, pi), o.state.pc, z3.And(z3.ULE(offset, upper + 1), z3.UGT(total, upper + 1)), mv, rp, hint=hint, twin=tw)
+            ctx.prop('%s/p%d/adds-nothing-when-already-over-the-bound' % (tag, pi), o.state.pc, z3.And(z3.UGT(offset, upper + 1), n != 0), mv, rp, hint=hint, twin=tw)
+            ctx.prop('%s/p%d/idempotent(re-applied-with-count-0-adds-nothing)' % (tag, pi), o.state.pc,
+                     z3.And(nc == 0, z3.UGE(offset, lower + 1), n != 0), mv, rp, hint=hint, twin=tw)
     eng.stubs = []
     eng.lenient = False
     eng.inline_only = None
@@ -231,12 +258,18 @@ def part_newline(ctx, eng):
     head = None
     for bb, blk in fn.blocks.items():
         _, term = block_parsed(blk)
-        if term[0] == 'call' and term[2][0] == 'path' and re.search(r'Peekable<.*Chars<.*>> as (std::iter::)?Iterator>::next$', term[2][1]):
-            head = bb
+        if term[0] == 'call' and term[2][0] == 'path':
+            mm = re.search(r'Peekable<.*(Chars|Bytes)<.*>> as (std::iter::)?Iterator>::next$', term[2][1])
+            if mm:
+                head, unit = bb, mm.group(1)
     if head is None:
         raise Inconclusive('convert_to_windows_newlines loop head not found')
-    cur = BV(z3.BitVec('current', 32), 'char')
-    nxt = BV(z3.BitVec('next', 32), 'char')
+    # the scan may run over the characters or over the UTF-8 bytes of the text; the harness follows the code's choice
+    ety, ebits = ('char', 32) if unit == 'Chars' else ('u8', 8)
+    if unit == 'Bytes':
+        ctx.notes.append('convert_to_windows_newlines scans bytes: the step is specified on the UTF-8 bytes of the text')
+    cur = BV(z3.BitVec('current', ebits), ety)
+    nxt = BV(z3.BitVec('next', ebits), ety)
     has_next = z3.Bool('has_next')
 
     def pk_next(eng_, st_, args, ci):
@@ -245,12 +278,12 @@ def part_newline(ctx, eng):
             eng_.write_ref(st_, args[0], Tup([bv_const(1, 'usize')], 'PeekChars'))
             return some(cur)
         return NONE
-    eng.stub(r'Peekable<.*Chars<.*>> as (std::iter::)?Iterator>::next$', pk_next, 'Peekable<Chars>::next: yields the current character, then ends (one-step harness)')
+    eng.stub(r'Peekable<.*(Chars|Bytes)<.*>> as (std::iter::)?Iterator>::next$', pk_next, 'Peekable<Chars|Bytes>::next: yields the current element, then ends (one-step harness)')
 
     def pk_peek(eng_, st_, args, ci):
         cell = eng_.ref_to(st_, nxt, False, 'peeked')
         return Enum('Option', z3.If(has_next, z3.BitVecVal(1, 64), z3.BitVecVal(0, 64)), {1: Tup([cell])})
-    eng.stub(r'Peekable::<.*Chars<.*>>::peek$', pk_peek, 'Peekable<Chars>::peek: the next character, if any')
+    eng.stub(r'Peekable::<.*(Chars|Bytes)<.*>>::peek$', pk_peek, 'Peekable<Chars|Bytes>::peek: the next element, if any')
 
     def opt_eq(eng_, st_, args, ci):
         x, y = deref(eng_, st_, args[0]), deref(eng_, st_, args[1])
@@ -260,7 +293,8 @@ def part_newline(ctx, eng):
         inner = (xv.e == yv.e) if (xv is not None and yv is not None) else z3.BoolVal(False)
         r = z3.Or(z3.And(x.discr == 0, y.discr == 0), z3.And(both_some, inner))
         return r if ci.func.endswith('::eq') else z3.Not(r)
-    eng.stub(r'^<(std::option::)?Option<&char> as (std::cmp::)?PartialEq>::(eq|ne)$', opt_eq, 'Option<&char> == Option<&char>')
+    eng.stub(r'^<(std::option::)?Option<&(char|u8)> as (std::cmp::)?PartialEq>::(eq|ne)$', opt_eq, 'Option<&char|&u8> == Option<&char|&u8>')
+    eng.stub(r'^<char as (std::convert::)?From<u8>>::from$', lambda e, s_, a, c: BV(z3.ZeroExt(24, a[0].e), 'char'), 'char::from(u8) = the scalar value with that number')
 
     def push_str(eng_, st_, args, ci):
         v = eng_.read_ref(st_, args[0])
@@ -272,8 +306,14 @@ def part_newline(ctx, eng):
     eng.stub(r'String::push_str$', push_str, 'String::push_str of a constant')
     st = State()
     for c_ in (cur, nxt):
-        st.assume(z3.And(z3.ULE(c_.e, 0x10FFFF), z3.Or(z3.ULT(c_.e, 0xD800), z3.UGT(c_.e, 0xDFFF))))
-    locs = {'transformed': Seq([]), 'chars': Tup([bv_const(0, 'usize')], 'PeekChars')}
+        if ety == 'char':
+            st.assume(z3.And(z3.ULE(c_.e, 0x10FFFF), z3.Or(z3.ULT(c_.e, 0xD800), z3.UGT(c_.e, 0xDFFF))))
+    # the two loop-carried variables, found by type (their names are the author's business)
+    it_var = [n for n, idx in fn.debug.items() if 'Peekable<' in str(fn.locals.get(idx, ''))]
+    out_var = [n for n, idx in fn.debug.items() if re.fullmatch(r'(std::string::)?String', str(fn.locals.get(idx, '')))]
+    if len(it_var) != 1 or len(out_var) != 1:
+        raise Inconclusive('convert_to_windows_newlines: loop-carried variables not identified (%r, %r)' % (it_var, out_var))
+    locs = {out_var[0]: Seq([]), it_var[0]: Tup([bv_const(0, 'usize')], 'PeekChars')}
     outs = ctx.check_outcomes(eng.run_from(cw, head, locs, st), 'convert_to_windows_newlines step')
     mv = [cur.e, nxt.e, has_next]
     for pi, o in enumerate(outs):
@@ -285,6 +325,9 @@ def part_newline(ctx, eng):
             raise Inconclusive('convert_to_windows result %r' % (out,))
         chars = [c.e for c in out.items]
         LF, CR = 10, 13
+        cur32 = cur.e if ety == 'char' else z3.ZeroExt(24, cur.e)
+        # in byte mode an element is one byte of the text: a pushed char reproduces it only if it is that byte and encodes as one byte
+        same = (lambda c_: c_ == cur32) if ety == 'char' else (lambda c_: z3.And(c_ == cur32, z3.ULT(c_, 0x80)))
         # every emitted '\n' is preceded by '\r'
         bad = []
         for i, c_ in enumerate(chars):
@@ -294,7 +337,7 @@ def part_newline(ctx, eng):
         is_crlf = z3.BoolVal(len(chars) == 2) if len(chars) == 2 else z3.BoolVal(False)
         want_lf = z3.And(cur.e == LF, z3.BoolVal(len(chars) == 2), *( [chars[0] == CR, chars[1] == LF] if len(chars) == 2 else [z3.BoolVal(False)]))
         want_drop = z3.And(cur.e == CR, has_next, nxt.e == LF, z3.BoolVal(len(chars) == 0))
-        want_keep = z3.And(cur.e != LF, z3.Not(z3.And(cur.e == CR, has_next, nxt.e == LF)), z3.BoolVal(len(chars) == 1), *([chars[0] == cur.e] if len(chars) == 1 else [z3.BoolVal(False)]))
+        want_keep = z3.And(cur.e != LF, z3.Not(z3.And(cur.e == CR, has_next, nxt.e == LF)), z3.BoolVal(len(chars) == 1), *([same(chars[0])] if len(chars) == 1 else [z3.BoolVal(False)]))
         ctx.prop('windows/p%d/changes-nothing-but-terminators' % pi, o.state.pc, z3.Not(z3.Or(want_lf, want_drop, want_keep)), mv, rp)
     eng.stubs = []
 
@@ -559,7 +602,7 @@ def cli_findings():
 
     def run(src, cfg):
         p = os.path.join(d, 'x.rs')
-        with open(p, 'w', newline='') as f:
+        with open(p, 'w', newline='', encoding='utf-8') as f:
             f.write(src)
         r = subprocess.run([rf, '--emit', 'stdout', '--quiet', '--config', cfg, p], capture_output=True, env=run_env(), timeout=60)
         out = r.stdout.decode('utf-8', 'replace')
@@ -568,7 +611,9 @@ def cli_findings():
     for ub in (0, 1, 2, 3):
         for lb in range(0, ub + 1):
             for gap in (0, 1, 2, 5):
-                for src in ('fn a() {}\n' + '\n' * gap + 'fn b() {}\n', 'fn a() {}\n// c\n' + '\n' * gap + 'fn b() {}\n'):
+                for src in ('fn a() {}\n' + '\n' * gap + 'fn b() {}\n', 'fn a() {}\n// c\n' + '\n' * gap + 'fn b() {}\n',
+                            'use a::b;\n' + '\n' * gap + 'use c::{};\n' + '\n' * gap + 'use d::e;\n',
+                            'use a::b;\n' + '\n' * gap + 'use c::{};\n' + '\n' * gap + 'use f::{};\n' + '\n' * gap + 'use d::e;\n'):
                     out = run(src, 'blank_lines_upper_bound=%d,blank_lines_lower_bound=%d' % (ub, lb))
                     runs = [len(m.group(0)) - 1 for m in re.finditer(r'\n{2,}', out)]
                     if any(x > ub for x in runs):
@@ -612,6 +657,10 @@ def cli_findings():
     out = run('fn a() {}\n\nfn b() {}\n', 'newline_style=Windows')
     if re.search(r'(?<!\r)\n', out):
         found.setdefault('other', []).append('Windows output has a bare LF: %r' % out)
+    for src in ('// caf\u00e9 \u4e2d\u6587 \U0001F600\nfn a() {}\n', 'fn a() {\n    let s = "\u00e9\u00fc";\n}\n'):
+        w, u = run(src, 'newline_style=Windows'), run(src, 'newline_style=Unix')
+        if w.replace('\r\n', '\n') != u:
+            found.setdefault('other', []).append('Windows conversion changed more than the terminators: %r vs %r' % (w[:40], u[:40]))
     out = run('#[rustfmt::skip]\nfn a() { let s = 1;\r\r\r\nlet t = 2; }\n', 'newline_style=Unix')
     if '\r\n' in out:
         found.setdefault('C08/newline_style/Unix/CR-CR-LF-leaves-a-CRLF', []).append('Unix output of skipped code containing CR CR CR LF still has CRLF: %r' % out)
